@@ -82,7 +82,7 @@ class Runner:
         self.bal = {}
         self.devnull = open(os.devnull, "w")
 
-    def run(self, batches, cfgname, cache_dir, trace=None):
+    def run(self, batches, cfgname, cache_dir, trace=None, nostats=False):
         cfg = CFGS[cfgname]
         col = cfg["col"]
         self.nrun = getattr(self, "nrun", 0) + 1
@@ -108,7 +108,8 @@ class Runner:
         fd = os.dup(2)
         os.dup2(self.devnull.fileno(), 2)
         try:
-            rows = b.rebalance(inputs, output_dict=True, stats=stats, batch_size=cfg["bs"])
+            # a caller that does not ask for statistics (the default of rebalance) must not change what later callers get
+            rows = b.rebalance(inputs, output_dict=True, stats=None if nostats else stats, batch_size=cfg["bs"])
         except Exception as ex:
             err = repr(ex)
         finally:
@@ -295,9 +296,9 @@ def main():
         shutil.rmtree(cdir, ignore_errors=True)
         os.makedirs(cdir)
         for step, run in enumerate(h):
-            res = R.run(run["batches"], run["cfg"], cdir, trace)
+            res = R.run(run["batches"], run["cfg"], cdir, trace, nostats=bool(run.get("nostats")))
             rr = reference(run["batches"], run["cfg"])
-            exp_rows, exp_stats = rr["rows"], rr["stats"]
+            exp_rows, exp_stats = rr["rows"], ({} if run.get("nostats") else rr["stats"])
             emit({"ev": "run", "kind": "history", "installed": {"history_step": step}, "cfg": run["cfg"],
                   "batches": run["batches"], "returned": res["rows"], "expected": exp_rows, "stats": res["stats"],
                   "exp_stats": exp_stats, "raised": res["raised"], "hits": res["hits"],
